@@ -57,8 +57,8 @@ func chase(v *pjs.Var) *pjs.Var {
 
 type renameStats struct {
 	programs, scopes, renamedScopes, vars, wfViolations, wfExpected, skipped, unvisited int
-	wfKinds                                                  map[string]int
-	maxDeclared                                              int
+	wfKinds                                                                             map[string]int
+	maxDeclared                                                                         int
 }
 
 // renameCase parses src, records the forest, minifies the same AST, and returns the model case line and the
@@ -388,6 +388,9 @@ func runRename(res *vh.Result, seed uint64, n int, known bool, outDir string, ki
 	for _, src := range bigScopePrograms(master.Fork(), nb) {
 		emit(src, false, master.Intn(4) == 0)
 	}
+	for _, src := range chainFamily(master.Fork(), 60) {
+		emit(src, false, master.Intn(4) == 0)
+	}
 	measure = false
 	for _, src := range withFamily(master.Fork(), 40) {
 		emit(src, false, master.Intn(4) == 0)
@@ -433,6 +436,56 @@ func debugRename(src string) {
 
 // withFamily: functions that contain `with` keep every name in all their scopes, also in the scopes that follow a nested
 // function / arrow function / method (which are renamed on their own); the programs mix those in random order.
+// chainFamily: a variable of an outer function captured through several nested scopes, each of which uses it itself (the
+// parser links inner -> middle -> ... -> declaration), while the innermost scopes declare locals of their own: the names
+// given to those locals must avoid the name given to the captured variable however long the link chain is.
+func chainFamily(r *vh.Rand, n int) []string {
+	var out []string
+	for k := 0; k < n; k++ {
+		var b bytes.Buffer
+		depth := 2 + r.Intn(4)
+		nouter := 1 + r.Intn(3)
+		b.WriteString("function chain(cp){")
+		for i := 0; i < nouter; i++ {
+			fmt.Fprintf(&b, "var outer%d=cp+%d;", i, i)
+		}
+		uses := func() string {
+			var u []string
+			for i := 0; i < nouter; i++ {
+				if r.Intn(4) > 0 {
+					u = append(u, fmt.Sprintf("outer%d", i))
+				}
+			}
+			if len(u) == 0 {
+				u = append(u, "outer0")
+			}
+			return strings.Join(u, "+")
+		}
+		closers := ""
+		for d := 0; d < depth; d++ {
+			switch r.Intn(4) {
+			case 0:
+				fmt.Fprintf(&b, "return function(){var mid%d=%s;", d, uses())
+				closers = "}" + closers
+			case 1:
+				fmt.Fprintf(&b, "return (m%d)=>{let mid%d=%s;", d, d, uses())
+				closers = "}" + closers
+			case 2:
+				fmt.Fprintf(&b, "{let mid%d=%s;return function(){", d, uses())
+				closers = "}}" + closers
+			default:
+				fmt.Fprintf(&b, "return function named%d(){var mid%d=%s;", d, d, uses())
+				closers = "}" + closers
+			}
+		}
+		fmt.Fprintf(&b, "var loc1=1,loc2=2;return %s+loc1+loc2", uses())
+		b.WriteString(closers)
+		b.WriteString("}")
+		out = append(out, b.String())
+	}
+	return out
+}
+
 func withFamily(r *vh.Rand, n int) []string {
 	var out []string
 	for k := 0; k < n; k++ {
